@@ -675,7 +675,7 @@ func ParseSpecFile(path string, pkg string, requirePrefix bool) (*SpecFile, erro
 			kind, tags, rest := parseTags(l.text)
 			cl := &Clause{Kind: kind, Tags: tags, Text: rest, File: path, Line: l.no}
 			switch kind {
-			case "requires", "ensures", "panics_only_if", "alloc_bound", "invariant", "monotone", "assume":
+			case "requires", "ensures", "panics_only_if", "alloc_bound", "invariant", "monotone", "assume", "sole_closer", "blocking_escape", "chan_cap_bound":
 				name, body := clauseName(rest)
 				cl.Name = name
 				e, err := ParseExpr(body)
